@@ -36,6 +36,14 @@ var c12Modes = []proto.Mode{
 	{NoMemo: true, Size: 1},
 }
 
+// clipQ quotes a string for a message, shortening very long ones (the replay file keeps all).
+func clipQ(s string) string {
+	if len(s) > 160 {
+		return fmt.Sprintf("%q...(%d bytes)...%q", s[:60], len(s), s[len(s)-20:])
+	}
+	return fmt.Sprintf("%q", s)
+}
+
 func obsDiff(a, b *proto.Obs) string {
 	switch {
 	case a.Panic != b.Panic:
@@ -50,6 +58,8 @@ func obsDiff(a, b *proto.Obs) string {
 		return fmt.Sprintf("action trace %v vs %v", a.Trace, b.Trace)
 	case a.Sprint != b.Sprint:
 		return fmt.Sprintf("syntax tree %q vs %q", a.Sprint, b.Sprint)
+	case a.Pretty != b.Pretty:
+		return fmt.Sprintf("pretty-printed tree %q vs %q", a.Pretty, b.Pretty)
 	case astString(a.AST) != astString(b.AST):
 		return fmt.Sprintf("AST %s vs %s", astString(a.AST), astString(b.AST))
 	case !sameErrTok(a.ErrTok, b.ErrTok):
@@ -92,6 +102,34 @@ func buildHistories(cs *lab.Case) [][]proto.Step {
 		}
 	}
 	out = append(out, cs.Hist...)
+	// the largest input that still fits a 16-bit instance: 65535 runes (plus the sentinel),
+	// and one less; positions near the end need every bit of the type
+	if cs.ID%4 == 0 && len(cs.Inputs) > 0 {
+		body := []rune(string(cs.Inputs[0]))
+		for _, in := range cs.Inputs {
+			if r := refpeg.Run(cs.G, 0, []rune(string(in)), 20000); r.OK && r.End > 0 && r.End == len([]rune(string(in))) {
+				body = []rune(string(in))
+				break
+			}
+		}
+		if len(body) == 0 {
+			body = []rune("a")
+		}
+		var big []rune
+		for len(big) < 65535 {
+			big = append(big, body...)
+		}
+		// the token index has the same type: keep to parses that complete fewer records than
+		// the type can count (the statement speaks of the input fitting, not of the token count)
+		if r := refpeg.Run(cs.G, 0, big[:65535], 3000000); r.Budget || r.Stats.Completed > 60000 {
+			return out
+		}
+		out = append(out, []proto.Step{
+			{Entry: 0, Input: proto.QStr(string(big[:65535]))},
+			{Entry: 0, Input: proto.QStr(string(body))},
+			{Entry: 0, Input: proto.QStr(string(big[:65534]))},
+		})
+	}
 	// a history that switches the entry rule between steps
 	if len(cs.G.Rules) >= 2 && len(cs.Inputs) >= 2 {
 		var mixed []proto.Step
@@ -186,7 +224,7 @@ func evalHistories(c *drv.Ctx, cases []*lab.Case, hists [][][]proto.Step, modes 
 				c.Stats.Eval()
 			}
 			if d := obsDiff(a, b); d != "" && res[ref.ci][ref.hi] == nil {
-				res[ref.ci][ref.hi] = &histEval{what: fmt.Sprintf("step %d (entry %s, input %q) on a reused instance [%s] differs from a fresh parser: %s", si, cases[ref.ci].G.Rules[s.Entry].Name, string(s.Input), modeKey(m), d), mode: m, step: si}
+				res[ref.ci][ref.hi] = &histEval{what: fmt.Sprintf("step %d (entry %s, input %s) on a reused instance [%s] differs from a fresh parser: %s", si, cases[ref.ci].G.Rules[s.Entry].Name, clipQ(string(s.Input)), modeKey(m), clip(d, 600)), mode: m, step: si}
 			}
 		}
 	}
@@ -389,7 +427,7 @@ func shrinkHist(c *drv.Ctx, prop string, cs *lab.Case, h []proto.Step, ev *histE
 	cur.Grammar = lab.Render(cur.Case, "g", false)
 	var steps []string
 	for _, s := range cur.Steps {
-		steps = append(steps, fmt.Sprintf("%s(%q)", cur.Case.G.Rules[s.Entry].Name, string(s.Input)))
+		steps = append(steps, fmt.Sprintf("%s(%s)", cur.Case.G.Rules[s.Entry].Name, clipQ(string(s.Input))))
 	}
 	desc := fmt.Sprintf("%s\n--- minimal history [%s]: %s ---\n%s", what, modeKey(cur.Mode), strings.Join(steps, "; "), strings.TrimSpace(cur.Case.G.String()))
 	return &drv.Violation{Property: prop, Kind: "lab-hist", What: desc, Case: cur}
@@ -413,6 +451,13 @@ func init() {
 	})
 	drv.Register("C12",
 		"well-formed grammars x histories of 2-8 (entry, input) steps on ONE long-lived instance (Buffer=...; Reset(); Parse(entry); Execute/AST/Sprint/Error): constructed histories rejected(with error token) -> longest accepted -> shortest accepted -> rejected -> short -> long -> long, histories that switch the entry rule, and rapid-drawn ones with repeated inputs; each history runs under 7 instance set-ups (uint32 default; uint16+Size(0); uint64+Size(1); uint+Size(32768); Size(4); uint16; DisableMemoize+Size(0)); every step must equal, on verdict, tokens, Execute trace, tree print, AST, error token and message, what a freshly constructed default uint32 parser returns for that input alone. Non-trivial: the history contains a failing step followed by a succeeding one and a longer input followed by a shorter one, or a repeated identical input together with one of those; distinct = (grammar, history).",
-		[]string{"inputs fit the instantiating type (longest input 5000 runes < 65535)", "U = uint8 is outside the statement"},
+		[]string{"inputs fit the instantiating type: the longest has exactly 65535 runes, the largest a uint16 instance can index together with the end-of-input sentinel", "U = uint8 is outside the statement"},
 		runC12)
+}
+
+func clip(s string, n int) string {
+	if len(s) > n {
+		return s[:n] + "..."
+	}
+	return s
 }
